@@ -22,7 +22,8 @@ fn arg_tsopts(a: &Value) -> ToStringRoundingOptions {
         Some(n) => Precision::Digit(n as u8),
     };
     let smallest_unit = js::opt_s(a, "su").filter(|s| !s.is_empty()).map(arg_unit);
-    ToStringRoundingOptions { precision, smallest_unit, rounding_mode: None }
+    let rounding_mode = js::opt_s(a, "mode").filter(|s| !s.is_empty()).map(arg_mode);
+    ToStringRoundingOptions { precision, smallest_unit, rounding_mode }
 }
 fn arg_dc(a: &Value) -> DisplayCalendar { DisplayCalendar::from_str(js::opt_s(a, "cd").unwrap_or("auto")).expect("calendar display") }
 fn arg_do(a: &Value) -> DisplayOffset { DisplayOffset::from_str(js::opt_s(a, "od").unwrap_or("auto")).expect("offset display") }
